@@ -8,6 +8,8 @@ L1: do_command_substitution (both passes, in-process: real fork/exec of helpers/
 L1x: the whole do_expansion in a cwd populated with files that match the outputs (*, *.txt, a*, sub/*):
     the output must be inserted literally (pass order: glob before substitution).
 L2: argv of helpers/hp through `cicada -c`, in that populated cwd.
+L2f: inner commands that are FUNCTIONS with for / while / if, break / continue and output before / after: captured
+    ($(f), backquotes, embedded, in an assignment) against what the same function prints when run directly.
 L2a: substitutions in assignments (alone on the line, with other assignments, before a command, with export, at word
     start / middle / end, inside double quotes) and in here-strings, both spellings: every counter file must hold
     exactly one byte and the variable must hold the output (run_proc's assignment-only branch is glue outside the model)."""
@@ -411,5 +413,87 @@ def run(ctx, res):
                 violate(kind="oracle", layer="L2a", input=line.replace(work, "W"), expected={"argv": exp, "runs": [1] * len(cnts)},
                         observed={"stdout": out, "runs": runs}, failing_input=True,
                         note="a substitution in an assignment / here-string must run exactly once and its output must be the value")
+        # ------------------------------------------------------------ L2f: inner commands that are FUNCTIONS with control flow
+        # direct differential: what the function prints when run directly (uncaptured) against what $(f) / `f` splice in.
+        # Two recorded classes of the unchanged code apply to captured functions (known_findings.txt):
+        #   function_output_joined        the outputs of the function's commands, each trimmed, are joined by single spaces
+        #   captured_function_conditions  inside a captured function every if / while condition is taken as true
+        # Inside them the recorded behaviour is predicted exactly (the same function with its conditions replaced by
+        # `true`, run directly, lines joined by blanks); anything else is a VIOLATION.
+        FUNCS = {
+            "f_plain": ["echo one", "echo two"],
+            "f_for": ["for x in a b c; do", "  echo \"it=$x\"", "done", "echo end"],
+            "f_break": ["for x in alpha beta gamma; do", "  echo \"first=$x\"", "  break", "done", "echo end"],
+            "f_break2": ["echo start", "for x in p q; do", "  echo \"a=$x\"", "  echo \"b=$x\"", "  break", "  echo never", "done", "echo end"],
+            "f_wbreak": ["while true; do", "  echo once", "  break", "done", "echo after"],
+            "f_nobody": ["for x in 1 2; do", "  break", "done", "echo only"],
+            "f_nest": ["for a in 1 2; do", "  for b in x y; do", "    echo \"$a$b\"", "    break", "  done", "  echo \"row=$a\"", "done"],
+            "f_cont": ["for x in a b c; do", "  if echo $x | grep -q b; then", "    continue", "  fi", "  echo \"it=$x\"", "done", "echo end"],
+            "f_if": ["echo before", "if echo x | grep -q y; then", "  echo yes", "else", "  echo no", "fi", "echo after"],
+            "f_while": ["n=1", "while echo $n | grep -q \"^[123]$\"; do", "  echo \"n=$n\"", "  if echo $n | grep -q 2; then", "    echo stop",
+                        "    break", "  fi", "  n=$(expr $n + 1)", "done", "echo after"],
+        }
+
+        def defs(always_true=False):
+            out = []
+            for name, body in sorted(FUNCS.items()):
+                out.append("function %s() {" % name)
+                for l in body:
+                    if always_true:
+                        l = re.sub(r"^(\s*)if .*; then$", r"\1if true; then", l)
+                        l = re.sub(r"^(\s*)while .*; do$", r"\1while true; do", l)
+                    out.append("  " + l)
+                out.append("}")
+            return "\n".join(out) + "\n"
+
+        def run_script(text):
+            d = tempfile.mkdtemp(prefix="l2f_", dir=work)
+            sp = os.path.join(d, "s.sh")
+            open(sp, "w").write(text)
+            try:
+                pr = subprocess.run([ctx.cicada, sp], cwd=d, stdin=subprocess.DEVNULL, stdout=subprocess.PIPE, stderr=subprocess.PIPE,
+                                    env={"PATH": "/usr/bin:/bin", "HOME": d, "XDG_CONFIG_HOME": d}, timeout=20)
+                return pr.stdout.decode("utf-8", "replace")
+            except subprocess.TimeoutExpired:
+                return "HANG"
+
+        TEMPL = [('echo "<$(%s)>"', "<%s>"), ('echo "<`%s`>"', "<%s>"), ("echo pre-$(%s)-post", "pre-%s-post"),
+                 ('V=$(%s)\necho "[$V]"', "[%s]"), ('V=`%s`\necho "[$V]"', "[%s]")]
+        fjobs = [("direct", n, None) for n in sorted(FUNCS)] + [("true", n, None) for n in sorted(FUNCS)] + \
+                [("subst", n, k) for n in sorted(FUNCS) for k in range(len(TEMPL))]
+
+        def one_f(job):
+            kind, n, k = job
+            if kind == "direct":
+                return run_script(defs() + n + "\n")
+            if kind == "true":
+                return run_script(defs(True) + n + "\n")
+            return run_script(defs() + (TEMPL[k][0] % n) + "\n")
+
+        with ThreadPoolExecutor(max_workers=8) as ex:
+            fouts = dict(zip(fjobs, ex.map(one_f, fjobs)))
+        res.count("L2f_function_substitutions", len(fjobs))
+        for n in sorted(FUNCS):
+            direct = fouts[("direct", n, None)]
+            as_true = fouts[("true", n, None)]
+            has_cond = any(re.match(r"\s*(if|while) ", l) and "true" not in l for l in FUNCS[n])
+            for k in range(len(TEMPL)):
+                got = fouts[("subst", n, k)]
+                want = TEMPL[k][1] % strip_nl(direct) + "\n"
+                res.nontrivial("l2f:%s:%d" % (n, k))
+                if got == want:
+                    continue
+                joined = TEMPL[k][1] % " ".join(x.strip() for x in strip_nl(direct).split("\n")) + "\n"
+                joined_true = TEMPL[k][1] % " ".join(x.strip() for x in strip_nl(as_true).split("\n")) + "\n"
+                if got == joined and "function_output_joined" in known:
+                    hit("function_output_joined")
+                elif has_cond and got == joined_true and "captured_function_conditions" in known and "function_output_joined" in known:
+                    hit("captured_function_conditions")
+                    hit("function_output_joined")
+                else:
+                    violate(kind="oracle", layer="L2f", function=n, body=FUNCS[n], input=TEMPL[k][0] % n,
+                            expected=want, recorded_behaviour=joined_true if has_cond else joined, observed=got, direct_output=direct,
+                            failing_input=True,
+                            note="the text spliced in for a function is neither its standard output nor the recorded behaviour")
     finally:
         shutil.rmtree(work, ignore_errors=True)
